@@ -7,7 +7,8 @@
 //	SendEnd   - SendFunc is about to return (nil or the scripted error)
 //	PRCall    - Servent.ProcessResponse is about to be called with a reply (id, sender, token)
 //	PRRet     - that call returned
-//	Callback  - a value arrived on the callback channel given to Enqueue (per-target content)
+//	Callback  - a value arrived on the callback channel given to Enqueue (per-target content, and
+//	            the consumers' view of it: Errors() by target, targets named by Err())
 //	End       - facts about the whole run after the grace period
 //
 // Every line carries t = milliseconds of the process' monotonic clock since the run started,
@@ -411,6 +412,93 @@ func (r *run) describe(c string, t string, resp controlcommands.MesosCommandResp
 	return e, idok
 }
 
+// errEntry turns one error of the consumer's view (Errors() / Err()) into recorded facts.
+func (r *run) errEntry(c string, keyName string, text string) map[string]interface{} {
+	e := map[string]interface{}{"t": keyName, "k": "other", "tok": []interface{}{}, "who": []interface{}{}}
+	switch {
+	case strings.HasPrefix(text, "verif-sendfail "):
+		e["k"] = "senderr"
+		parts := strings.SplitN(strings.TrimPrefix(text, "verif-sendfail "), "/", 2)
+		if len(parts) == 2 {
+			e["who"] = []interface{}{parts[0], parts[1]}
+		}
+	case strings.HasPrefix(text, "MesosCommand_Transition timed out for task "):
+		e["k"] = "timeout"
+		who := r.taskT[strings.TrimPrefix(text, "MesosCommand_Transition timed out for task ")]
+		if who == "" {
+			who = "?"
+		}
+		e["who"] = []interface{}{c, who}
+	case strings.HasPrefix(text, "verif-reply-error "):
+		if m, ok := r.msgs[strings.TrimPrefix(text, "verif-reply-error ")]; ok {
+			e["k"] = "replyerr"
+			e["tok"] = m.Tok
+		}
+	default:
+		e["s"] = text
+	}
+	return e
+}
+
+// consumerView records the result the way its consumers (core/task Manager.transitionTasks /
+// configureTasks) read it: for a multi-response the per-target error map Errors() and the targets
+// named by Err(); for a single response Err().
+func (r *run) consumerView(c string, kind string, resp controlcommands.MesosCommandResponse) ([]interface{}, []string) {
+	errs := make([]interface{}, 0)
+	tasks := make([]string, 0)
+	if resp == nil {
+		return errs, tasks
+	}
+	if kind == "multi" {
+		m := resp.Errors()
+		type kv struct {
+			n string
+			e map[string]interface{}
+		}
+		l := make([]kv, 0, len(m))
+		for tg, err := range m {
+			n, ok := r.tname[tg]
+			if !ok {
+				n = "?"
+				if tg == (controlcommands.MesosCommandTarget{}) {
+					n = "-"
+				}
+			}
+			txt := ""
+			if err != nil {
+				txt = err.Error()
+			}
+			l = append(l, kv{n, r.errEntry(c, n, txt)})
+		}
+		sort.Slice(l, func(i, j int) bool { return l[i].n < l[j].n })
+		for _, x := range l {
+			errs = append(errs, x.e)
+		}
+		if err := resp.Err(); err != nil {
+			for _, line := range strings.Split(err.Error(), "\n") {
+				if strings.HasPrefix(line, "[task ") && strings.Contains(line, "] ") {
+					task := line[len("[task "):strings.Index(line, "] ")]
+					n := r.taskT[task]
+					if n == "" {
+						n = "?"
+					}
+					tasks = append(tasks, n)
+				}
+			}
+			sort.Strings(tasks)
+		}
+		return errs, tasks
+	}
+	if err := resp.Err(); err != nil {
+		t := "?"
+		if ts := r.sc.Tg[c]; len(ts) == 1 {
+			t = ts[0]
+		}
+		errs = append(errs, r.errEntry(c, t, err.Error()))
+	}
+	return errs, tasks
+}
+
 // collector records every value that arrives on c's callback channel.
 func (r *run) collector(c string) {
 	for resp := range r.cbCh[c] {
@@ -457,8 +545,9 @@ func (r *run) collector(c string) {
 		r.cbN[c]++
 		n := r.cbN[c]
 		r.mu.Unlock()
-		rec := map[string]interface{}{"c": c, "kind": kind, "res": res}
-		r.emit("Callback", "c", c, "n", n, "kind", kind, "res", res, "idok", idok)
+		errs, errtasks := r.consumerView(c, kind, resp)
+		rec := map[string]interface{}{"c": c, "kind": kind, "res": res, "errs": errs}
+		r.emit("Callback", "c", c, "n", n, "kind", kind, "res", res, "idok", idok, "errs", errs, "errtasks", errtasks)
 		if n == 1 {
 			r.mu.Lock()
 			r.first[c] = rec
